@@ -180,7 +180,7 @@ def run_cases(tag, cases, shard=60):
             root = {"file": "root_file", "MetaModel": "META", "main": "gate_root"}[c["root"]]
             rows.append("(CJsv %s %s %s)" % (root, em.big(c["doc"]), str(bool(c["real"])).lower()))
         elif k == "main":
-            rows.append("(CMain gate_root main_effects [%s] %s)" % ("; ".join(em.cj(x) for x in c["docs"]), str(bool(c["real"])).lower()))
+            rows.append("(CMain gate_root main_effects [%s] %s)" % ("; ".join(em.big(x) for x in c["docs"]), str(bool(c["real"])).lower()))
         else:
             raise ValueError(k)
     fs, fc, imp = em.write_tables(tag)
